@@ -96,6 +96,7 @@ func main() {
 		dumpFormats(root, v2)
 		if root != nil {
 			dumpTables(root)
+			dumpDiffTable(root)
 		}
 		if v2 != nil {
 			dumpV2Tables(v2)
